@@ -17,7 +17,8 @@ open Rzmq
 theorem source_shape :
     Gen.lingerCheckLooksAtPipesOnly = 1 ∧ Gen.lingerDeadlineChecked = 1 ∧ Gen.lingerNoneHasNoDeadline = 1
     ∧ Gen.lingerZeroDeadlineNow = 1 ∧ Gen.lingerTimedDeadline = 1 ∧ Gen.lingerCheckIntervalMs = 100
-    ∧ Gen.lingerDefaultIsZero = 1 ∧ Gen.lingerStartRequiresLingeringPhase = 1 ∧ Gen.lingerArmedAfterPhaseSet = 1 := by
+    ∧ Gen.lingerDefaultIsZero = 1 ∧ Gen.lingerStartRequiresLingeringPhase = 1 ∧ Gen.lingerArmedAfterPhaseSet = 1
+    ∧ Gen.lingerOptionParsedAsGiven = 1 := by
   decide
 
 -- how long close() lingers --------------------------------------------------------------------------------------
